@@ -261,6 +261,58 @@ func checkSize(c *DecorCase) string {
 			return m
 		}
 	}
+	// every member of the counters family prints the quantity Decor.tla names for it (Quantity: current, total,
+	// total - current), through the formatter checked above
+	y := x / 3
+	st = decor.Statistics{Total: x, Current: y, AvailableWidth: 200}
+	size := func(v int64) interface{} {
+		if c.C.Base == 1024 {
+			return decor.SizeB1024(v)
+		}
+		return decor.SizeB1000(v)
+	}
+	byUnit := func(kibi, kilo func(string, ...decor.WC) decor.Decorator) func(string, ...decor.WC) decor.Decorator {
+		if c.C.Base == 1024 {
+			return kibi
+		}
+		return kilo
+	}
+	type fam struct {
+		name string
+		d    decor.Decorator
+		want string
+	}
+	for _, f := range []string{"% .1f", "%d", ""} {
+		uf, nf, pf, npf := f, f, f+" / "+f, f+" / "+f
+		if f == "" {
+			uf, nf, pf, npf = "% d", "%d", "% d / % d", "%d / %d" // the documented defaults
+		}
+		pin, pnin := pf, npf
+		if f == "" {
+			pin, pnin = "", ""
+		}
+		for _, m := range []fam{
+			{"Counters", decor.Counters(unit, pin), fmt.Sprintf(pf, size(y), size(x))},
+			{"Counters(KibiByte|KiloByte)", byUnit(decor.CountersKibiByte, decor.CountersKiloByte)(pin), fmt.Sprintf(pf, size(y), size(x))},
+			{"CountersNoUnit", decor.CountersNoUnit(pnin), fmt.Sprintf(npf, y, x)},
+			{"Current", decor.Current(unit, f), fmt.Sprintf(uf, size(y))},
+			{"Current(KibiByte|KiloByte)", byUnit(decor.CurrentKibiByte, decor.CurrentKiloByte)(f), fmt.Sprintf(uf, size(y))},
+			{"CurrentNoUnit", decor.CurrentNoUnit(f), fmt.Sprintf(nf, y)},
+			{"Total", decor.Total(unit, f), fmt.Sprintf(uf, size(x))},
+			{"Total(KibiByte|KiloByte)", byUnit(decor.TotalKibiByte, decor.TotalKiloByte)(f), fmt.Sprintf(uf, size(x))},
+			{"TotalNoUnit", decor.TotalNoUnit(f), fmt.Sprintf(nf, x)},
+			{"InvertedCurrent", decor.InvertedCurrent(unit, f), fmt.Sprintf(uf, size(x-y))},
+			{"InvertedCurrent(KibiByte|KiloByte)", byUnit(decor.InvertedCurrentKibiByte, decor.InvertedCurrentKiloByte)(f), fmt.Sprintf(uf, size(x-y))},
+			{"InvertedCurrentNoUnit", decor.InvertedCurrentNoUnit(f), fmt.Sprintf(nf, x-y)},
+		} {
+			if got, _ := m.d.Decor(st); got != m.want {
+				return fmt.Sprintf("%s(%q) at current %d total %d prints %q, the true value prints as %q", m.name, f, y, x, got, m.want)
+			}
+			if msg := widthOK(m.d, st); msg != "" {
+				return msg
+			}
+		}
+	}
 	return ""
 }
 
